@@ -11,6 +11,11 @@ if [ "$1" = "--clean" ]; then
 fi
 id=$1; S=/verif/seeded/$id; slot=${VSLOT:-a}; W=/tmp/ver-slot-$slot; T=${VTHREADS:-8}
 [ -f $S/patch.diff ] || { echo "no patch for $id"; exit 2; }
+# several slots may work through overlapping lists: one slot per change, and a change whose
+# suite has already been confirmed in the optimised profile is not run again
+if grep -q '"suite_profile"' $S/confirm.json 2>/dev/null && grep -q 'tests run' $S/confirm.json; then echo "already confirmed: $id"; exit 0; fi
+mkdir /tmp/vlock-$id 2>/dev/null || { echo "in progress elsewhere: $id"; exit 0; }
+trap "rmdir /tmp/vlock-$id 2>/dev/null" EXIT
 head=$(git -C /repo rev-parse HEAD)
 if [ -d $W/.git ] || [ -f $W/.git ]; then
   git -C $W checkout -q -- . && git -C $W clean -fdq && git -C $W checkout -q --detach $head || exit 2
